@@ -438,11 +438,26 @@ fn real_err(e: slice_codec::Error) -> RealErr {
     RealErr { rendered: r.map_err(|(loc, msg)| format!("{loc}: {msg}")) }
 }
 
+/// After a refused decode the decoder is still the caller's: what it says about its position must stay inside the
+/// input, and reading on must fail or return bytes OF THE INPUT (a cursor left beyond the end reads foreign memory).
+fn probe_after_refusal(d: &mut Decoder<SliceInputSource>, bytes: &[u8]) {
+    let remaining = d.remaining();
+    assert!(remaining <= bytes.len(), "after a refused decode remaining() is {remaining} for an input of {} bytes: the cursor has left the buffer", bytes.len());
+    let at = bytes.len() - remaining;
+    match d.decode::<u8>() {
+        Ok(b) => assert!(remaining > 0 && bytes[at] == b, "after a refused decode the next byte read is {b:#04x}, which is not byte {at} of the input"),
+        Err(_) => assert!(remaining == 0, "after a refused decode {remaining} bytes are left but a single byte cannot be read"),
+    }
+}
+
 fn dec_typed<T: DecodeFrom + Bridge>(bytes: &[u8]) -> Result<(V, usize), RealErr> {
     let mut d: Decoder<SliceInputSource> = Decoder::from(bytes);
     match d.decode::<T>() {
         Ok(v) => Ok((v.to_v(), bytes.len() - d.remaining())),
-        Err(e) => Err(real_err(e)),
+        Err(e) => {
+            probe_after_refusal(&mut d, bytes);
+            Err(real_err(e))
+        }
     }
 }
 
@@ -454,7 +469,10 @@ pub fn real_decode(ty: &Ty, bytes: &[u8]) -> Result<(V, usize), RealErr> {
             let mut d: Decoder<SliceInputSource> = Decoder::from(bytes);
             match d.$m::<$t>() {
                 Ok(v) => Ok((V::Int(v as i128), bytes.len() - d.remaining())),
-                Err(e) => Err(real_err(e)),
+                Err(e) => {
+                    probe_after_refusal(&mut d, bytes);
+                    Err(real_err(e))
+                }
             }
         }};
     }
